@@ -374,6 +374,11 @@ impl Monitors {
     // acknowledged segments), C14 (sizes)
     // ------------------------------------------------------------------------------------------
     fn tx_wire(&mut self, rec: &StepRecord, w: &World, _act: Option<&Act>, v: &mut Vec<Finding>) {
+        // a retransmission timeout taken by the sender is a loss event for it even when nothing is put
+        // on the wire a second time (the timer can fire with only never-sent segments queued, F16)
+        if rec.obs_after.as_ref().map(|o| o.rto_retransmissions > 0).unwrap_or(false) {
+            self.loss_seen = true;
+        }
         let link_payload_max = w.cfg.link_mtu - if w.cfg.ipv6 { 48 } else { 28 };
         for e in &rec.emitted {
             if e.len > link_payload_max {
@@ -1152,7 +1157,9 @@ impl Monitors {
                     }
                     let transmitted: u64 = self.tx.values().map(|t| t.len as u64).sum();
                     let our_fin_out = self.fin_seq.is_some();
-                    if !our_fin_out && transmitted == w.written && rec.rejected.is_empty() {
+                    // (during a loss episode the FIN queues behind the retransmissions: not demanded in the same instant)
+                    let in_loss = self.episode.is_some() || rec.obs_before.as_ref().map(|o| o.rto_retransmissions > 0 || o.recovery_phase != 0).unwrap_or(false);
+                    if !our_fin_out && transmitted == w.written && rec.rejected.is_empty() && !in_loss {
                         v.push(f("C17", "teardown", "fin/peer-fin-not-answered-with-own-fin", format!("the peer's in-sequence ST_FIN arrived in state {}; everything written had been transmitted, yet no ST_FIN of our own was emitted", state_before)));
                     }
                 }
@@ -1190,12 +1197,15 @@ impl Monitors {
         let Some(oa) = &rec.obs_after else { return };
         let Some(ob) = &rec.obs_before else { return };
         let limit = w.cfg.tx_init.max(w.cfg.tx_max) as u64;
-        if w.written.saturating_sub(self.cum_acked_bytes) > limit {
+        // acknowledged = cumulatively or selectively (the library releases a selectively acknowledged
+        // segment from the ring as soon as everything before it is acknowledged too)
+        let acked = self.cum_acked_bytes.max(self.bytes_acked);
+        if w.written.saturating_sub(acked) > limit {
             v.push(f(
                 "C19",
                 "tx-buffer-bound",
                 "txbuf/accepted-minus-acked-exceeds-limit",
-                format!("write accepted {} bytes, the peer has cumulatively acknowledged {}: {} unacknowledged > limit {}", w.written, self.cum_acked_bytes, w.written - self.cum_acked_bytes, limit),
+                format!("write accepted {} bytes, the peer has acknowledged {} (cumulatively {}): {} unacknowledged > limit {}", w.written, acked, self.cum_acked_bytes, w.written - acked, limit),
             ));
         }
         // uTP segments once: note where a segmentation pass ended because the peer window was used up
@@ -1289,6 +1299,20 @@ impl Monitors {
             }
             return;
         };
+        // a parked operation is registered with the waker of the task that polled it last (the
+        // contract of Future::poll): an earlier task's waker would wake nobody who is waiting
+        let (ww, rw) = w.waker_targets();
+        if w.w_parked != Parked::No && w.writer.is_some() && ww == 2 {
+            v.push(f(
+                if matches!(w.w_parked, Parked::Write(_)) { "C19" } else { "C02" },
+                "wake-ups",
+                "wake/writer-registered-with-stale-waker",
+                format!("{:?} is pending; the waker the library holds for it belongs to a task that polled earlier, not to the one that polled last", w.w_parked),
+            ));
+        }
+        if w.r_parked != Parked::No && w.reader.is_some() && rw == 2 {
+            v.push(f("C02", "wake-ups", "wake/reader-registered-with-stale-waker", "poll_read is pending; the waker the library holds for it belongs to a task that polled earlier, not to the one that polled last".to_string()));
+        }
         // a parked writer with free ring space / a parked reader with queued data, at quiescence
         if let Parked::Write(_) = w.w_parked {
             if oa.tx_ring_len < oa.tx_ring_cap && w.writer.is_some() {
